@@ -1,11 +1,11 @@
 /-
-  C17 — the type-definition skeleton, document level: the exported text of a list of skeleton type
+  C17 — type definitions, document level: the exported text of a list of well-formed type
   definitions lexes to the token sequence `defToks`, which the reference parser reads as the
   definitions `describe` requires.
 -/
 import AGV.Lemmas.SdlSkeletonLex
 namespace AGV.Lemmas.SdlSkeleton
-open AGV.Core AGV.Core.PAst AGV.Core.Sdl AGV.Model.Sdl AGV.Spec.Literal AGV.Spec.Lex AGV.Spec.Parse AGV.Spec.SdlParse AGV.Lemmas.SdlLex
+open AGV.Core AGV.Core.PAst AGV.Core.Sdl AGV.Model.Sdl AGV.Spec.Literal AGV.Spec.Lex AGV.Spec.Parse AGV.Spec.SdlParse AGV.Lemmas.SdlLex AGV.Lemmas.SdlValue AGV.Lemmas.SdlBlock
 
 -- ------------------------------------------------------------------ lexing a type definition
 
@@ -17,10 +17,13 @@ theorem Lx_enumValues (o : Opts) (ho : o.federation = false) (vs : List (Text ×
   | cons v vs ih =>
     have hv := hvs v List.mem_cons_self
     have h1 := ih (fun x hx => hvs x (List.mem_cons_of_mem _ hx))
-    have h2 := Lx_optDesc o 1 v.2.desc _ _ (Lx.ws (tab_ignored o) (Lx.nameI (n := v.1) (c := '\n') hv.name (by decide) h1))
-    have e : exportEnumValue Defects.none o v = optDescription Defects.none o 1 v.2.desc ++ (tab o ++ (v.1 ++ ['\n'])) := by
-      simp [exportEnumValue, hv.attrs.dep, writeDeprecated_no, hv.attrs.dirs, dirApps_nil,
-        fedAttrs_off o ho]
+    have hnl := Lx.ign (c := '\n') (by decide) h1
+    have hap := Lx_itemApps v.2 hv.attrs _ _ (nameEnd_of_ignored '\n' _ (by decide)) hnl
+    have hve := itemApps_valEnd v.2 ('\n' :: ((vs.map (exportEnumValue Defects.none o)).flatten ++ rest)) (valEnd_ign '\n' _ (by decide))
+    have h2 := Lx_optDesc o 1 v.2.desc _ _ (Lx.ws (tab_ignored o) (Lx.name (n := v.1) hv.name hve.nameEnd hap))
+    have e : exportEnumValue Defects.none o v = optDescription Defects.none o 1 v.2.desc ++ (tab o ++ (v.1 ++
+        (writeDeprecated Defects.none v.2.dep ++ (dirApps v.2.dirs ++ ['\n'])))) := by
+      simp [exportEnumValue, fedAttrs_off o ho]
     simpa [enumToks, enumValToks, e, List.append_assoc] using h2
 
 theorem Lx_inputFields (o : Opts) (ho : o.federation = false) (fs : List InputVal) (hfs : ∀ f ∈ fs, SkelIv f)
@@ -33,9 +36,10 @@ theorem Lx_inputFields (o : Opts) (ho : o.federation = false) (fs : List InputVa
     have h1 := ih (fun x hx => hfs x (List.mem_cons_of_mem _ hx))
     have h2 : Lx ('\n' :: ((fs.map (exportInputField Defects.none o)).flatten ++ rest)) (ivsToks fs ++ ts) :=
       Lx.ign (by decide) h1
-    have h3 := Lx_optDesc o 1 f.a.desc _ _ (Lx.ws (tab_ignored o) (Lx_inputValue f hf _ _ (nameEnd_of_ignored '\n' _ (by decide)) h2))
-    have e : exportInputField Defects.none o f = optDescription Defects.none o 1 f.a.desc ++ (tab o ++ (writeInputValue Defects.none f ++ ['\n'])) := by
-      simp [exportInputField, hf.attrs.dirs, dirApps_nil, fedAttrs_off o ho]
+    have h3 := Lx_optDesc o 1 f.a.desc _ _ (Lx.ws (tab_ignored o) (Lx_inputValue o ho f hf _ _ (valEnd_ign '\n' _ (by decide)) h2))
+    have e : exportInputField Defects.none o f = optDescription Defects.none o 1 f.a.desc ++ (tab o ++ (writeInputValue Defects.none f ++
+        (fedAttrs Defects.none o f.a ++ (dirApps f.a.dirs ++ ['\n'])))) := by
+      simp [exportInputField]
     simpa [ivsToks, ivToks, e, List.append_assoc] using h3
 
 /-- ` {\n` … `}\n\n` around a body -/
@@ -54,63 +58,98 @@ theorem Lx_head (k : String) (hk : isName (kw k) = true) (n : Text) (hn : isName
     (hr : NameEnd r) (h : Lx r ts) : Lx (kw k ++ ' ' :: (n ++ r)) (.name (kw k) :: .name n :: ts) :=
   Lx.nameI hk (by decide) (Lx.name hn hr h)
 
+/-- ` @specifiedBy(url: "…")` -/
+theorem Lx_specifiedBy (u rest : Text) (ts : List Tok) (h : Lx rest ts) :
+    Lx (s " @specifiedBy(url: \"" ++ tagText Defects.none u ++ s "\")" ++ rest)
+      (dirsToks [⟨kwT "specifiedBy", [(kwT "url", .str u)]⟩] ++ ts) := by
+  have h1 : Lx ('"' :: (escapeString false u ++ '"' :: ')' :: rest)) (.str u :: .punct ')' :: ts) :=
+    Lx.estr (by simp) (Lx.punct (by decide) h)
+  have h2 := Lx.name (n := kwT "url") (by decide) (valEnd_punct ':' _ (by decide)).nameEnd
+    (Lx.punct (c := ':') (by decide) (Lx.ign (c := ' ') (by decide) h1))
+  have h3 := Lx.ign (c := ' ') (by decide) (Lx.punct (c := '@') (by decide)
+    (Lx.name (n := kwT "specifiedBy") (by decide) (valEnd_punct '(' _ (by decide)).nameEnd (Lx.punct (c := '(') (by decide) h2)))
+  have hD : tagText Defects.none u = escapeString false u := by simp [tagText, Defects.none]
+  simpa [hD, dirsToks, dirToks, sfToks, svToks, s, kwT, List.append_assoc] using h3
+
+theorem braces_nameEnd (body rest : Text) : NameEnd (s " {\n" ++ body ++ s "}\n\n" ++ rest) := by
+  simp only [s]; exact nameEnd_of_ignored ' ' _ (by decide)
+
 theorem Lx_typeDef (o : Opts) (ho : o.federation = false) (t : TypeDef) (hs : SkelType t) (rest : Text) (ts : List Tok)
     (h : Lx rest ts) : Lx (exportType Defects.none o t ++ rest) (defToks o t ++ ts) := by
   cases t with
   | scalar n a url =>
-    obtain ⟨hn, ha, hu⟩ := hs
+    obtain ⟨hn, ha⟩ := hs
     by_cases hsys : systemScalars.contains n = true
     · have hm : n ∈ systemScalars := by simpa using hsys
       simpa [exportType, defToks, isSystemScalar, hm] using h
     · have hsys' : systemScalars.contains n = false := by simpa using hsys
-      have h1 : Lx ('\n' :: '\n' :: rest) ts := Lx.ign (by decide) (Lx.ign (by decide) h)
-      have h2 := Lx_head "scalar" (by decide) n hn _ _ (nameEnd_of_ignored '\n' _ (by decide)) h1
-      have e : exportType Defects.none o (.scalar n a url) ++ rest = optDescription Defects.none o 0 a.desc ++ (kw "scalar" ++ ' ' :: (n ++ '\n' :: '\n' :: rest)) := by
-        simp only [exportType, hsys', ho, Bool.false_and, Bool.or_false, Bool.false_eq_true, if_false,
-          hu, ha.dirs, dirApps_nil, fedAttrs_off o ho]
-        cases o.specifiedBy <;> simp [s, kw, List.append_assoc]
       have hm : n ∉ systemScalars := by simpa using hsys'
-      rw [e]
-      simpa [defToks, isSystemScalar, hm, tdAttrs, defCore, List.append_assoc] using Lx_optDesc o 0 a.desc _ _ h2
+      have h1 : Lx ('\n' :: '\n' :: rest) ts := Lx.ign (by decide) (Lx.ign (by decide) h)
+      have hd := Lx_dirApps a.dirs ha.dirs _ _ (nameEnd_of_ignored '\n' _ (by decide)) h1
+      have hdn := dirApps_nameEnd a.dirs ('\n' :: '\n' :: rest) (nameEnd_of_ignored '\n' _ (by decide))
+      have key : ∀ (sp : Text) (sa : List DirApp), NameEnd (sp ++ (dirApps a.dirs ++ '\n' :: '\n' :: rest)) →
+          Lx (sp ++ (dirApps a.dirs ++ '\n' :: '\n' :: rest)) (dirsToks sa ++ (dirsToks a.dirs ++ ts)) →
+          Lx (optDescription Defects.none o 0 a.desc ++ (kw "scalar" ++ ' ' :: (n ++ (sp ++ (dirApps a.dirs ++ '\n' :: '\n' :: rest)))))
+            (descToks a.desc ++ (.name (kw "scalar") :: .name n :: (dirsToks (sa ++ a.dirs) ++ ts))) := by
+        intro sp sa hne hsp
+        have h2 := Lx_head "scalar" (by decide) n hn _ _ hne hsp
+        simpa [dirsToks_append, List.append_assoc] using Lx_optDesc o 0 a.desc _ _ h2
+      cases hsb : o.specifiedBy with
+      | false =>
+        have := key [] [] (by simpa using hdn) (by simpa [dirsToks] using hd)
+        simpa [exportType, hsys', ho, hsb, fedAttrs_off o ho, defToks, isSystemScalar, hm, tdAttrs, defCore, typeApps, specApps,
+          s, kw, List.append_assoc] using this
+      | true =>
+        cases url with
+        | none =>
+          have := key [] [] (by simpa using hdn) (by simpa [dirsToks] using hd)
+          simpa [exportType, hsys', ho, hsb, fedAttrs_off o ho, defToks, isSystemScalar, hm, tdAttrs, defCore, typeApps, specApps,
+            s, kw, List.append_assoc] using this
+        | some u =>
+          have := key (s " @specifiedBy(url: \"" ++ tagText Defects.none u ++ s "\")") [⟨kwT "specifiedBy", [(kwT "url", .str u)]⟩]
+            (by simp only [s]; exact nameEnd_of_ignored ' ' _ (by decide))
+            (by simpa [List.append_assoc] using Lx_specifiedBy u _ _ hd)
+          simpa [exportType, hsys', ho, hsb, fedAttrs_off o ho, defToks, isSystemScalar, hm, tdAttrs, defCore, typeApps, specApps,
+            s, kw, List.append_assoc] using this
   | object n a ext impls fs =>
     obtain ⟨hn, ha, himpl, _, hfs⟩ := hs
     have hb := Lx_braces (exportFields Defects.none o fs) rest (fieldsToks o (sorted o.sortedFields (·.name) fs)) ts
       (fun r t hrt => Lx_fields o ho fs hfs r t hrt) h
-    have hne : NameEnd (s " {\n" ++ exportFields Defects.none o fs ++ s "}\n\n" ++ rest) := by
-      simp only [s]; exact nameEnd_of_ignored ' ' _ (by decide)
-    have hi := Lx_implements impls himpl _ _ hne hb
-    have hne2 : NameEnd (writeImplements impls ++ (s " {\n" ++ exportFields Defects.none o fs ++ s "}\n\n" ++ rest)) := by
+    have hne := braces_nameEnd (exportFields Defects.none o fs) rest
+    have hd := Lx_dirApps a.dirs ha.dirs _ _ hne hb
+    have hi := Lx_implements impls himpl _ _ (dirApps_nameEnd a.dirs _ hne) hd
+    have hne2 : NameEnd (writeImplements impls ++ (dirApps a.dirs ++ (s " {\n" ++ exportFields Defects.none o fs ++ s "}\n\n" ++ rest))) := by
       unfold writeImplements; split
-      · simpa using hne
+      · simpa using dirApps_nameEnd a.dirs _ hne
       · simp only [s]; exact nameEnd_of_ignored ' ' _ (by decide)
     have h2 := Lx_head "type" (by decide) n hn _ _ hne2 hi
     have e : exportType Defects.none o (.object n a ext impls fs) ++ rest =
-        optDescription Defects.none o 0 a.desc ++ (kw "type" ++ ' ' :: (n ++ (writeImplements impls ++ (s " {\n" ++ exportFields Defects.none o fs ++ s "}\n\n" ++ rest)))) := by
-      simp only [exportType, ho, Bool.false_and, Bool.false_eq_true, if_false, ha.dirs,
-        dirApps_nil, fedAttrs_off o ho]
+        optDescription Defects.none o 0 a.desc ++ (kw "type" ++ ' ' :: (n ++ (writeImplements impls ++ (dirApps a.dirs ++
+          (s " {\n" ++ exportFields Defects.none o fs ++ s "}\n\n" ++ rest))))) := by
+      simp only [exportType, ho, Bool.false_and, Bool.false_eq_true, if_false, fedAttrs_off o ho]
       simp [s, kw, List.append_assoc]
     rw [e]
-    simpa [defToks, isSystemScalar, tdAttrs, defCore, List.append_assoc] using Lx_optDesc o 0 a.desc _ _ h2
+    simpa [defToks, isSystemScalar, tdAttrs, defCore, typeApps, List.append_assoc] using Lx_optDesc o 0 a.desc _ _ h2
   | interface n a ext impls fs =>
     obtain ⟨hn, ha, himpl, _, hfs⟩ := hs
     have hb := Lx_braces (exportFields Defects.none o fs) rest (fieldsToks o (sorted o.sortedFields (·.name) fs)) ts
       (fun r t hrt => Lx_fields o ho fs hfs r t hrt) h
-    have hne : NameEnd (s " {\n" ++ exportFields Defects.none o fs ++ s "}\n\n" ++ rest) := by
-      simp only [s]; exact nameEnd_of_ignored ' ' _ (by decide)
-    have hi := Lx_implements impls himpl _ _ hne hb
-    have hne2 : NameEnd (writeImplements impls ++ (s " {\n" ++ exportFields Defects.none o fs ++ s "}\n\n" ++ rest)) := by
+    have hne := braces_nameEnd (exportFields Defects.none o fs) rest
+    have hd := Lx_dirApps a.dirs ha.dirs _ _ hne hb
+    have hi := Lx_implements impls himpl _ _ (dirApps_nameEnd a.dirs _ hne) hd
+    have hne2 : NameEnd (writeImplements impls ++ (dirApps a.dirs ++ (s " {\n" ++ exportFields Defects.none o fs ++ s "}\n\n" ++ rest))) := by
       unfold writeImplements; split
-      · simpa using hne
+      · simpa using dirApps_nameEnd a.dirs _ hne
       · simp only [s]; exact nameEnd_of_ignored ' ' _ (by decide)
     have h2 := Lx_head "interface" (by decide) n hn _ _ hne2 hi
     have e : exportType Defects.none o (.interface n a ext impls fs) ++ rest =
-        optDescription Defects.none o 0 a.desc ++ (kw "interface" ++ ' ' :: (n ++ (writeImplements impls ++ (s " {\n" ++ exportFields Defects.none o fs ++ s "}\n\n" ++ rest)))) := by
+        optDescription Defects.none o 0 a.desc ++ (kw "interface" ++ ' ' :: (n ++ (writeImplements impls ++ (dirApps a.dirs ++
+          (s " {\n" ++ exportFields Defects.none o fs ++ s "}\n\n" ++ rest))))) := by
       have hD : Defects.none.interfaceDirectivesFirst = false := rfl
-      simp only [exportType, ho, Bool.false_and, Bool.false_eq_true, if_false, ha.dirs,
-        dirApps_nil, fedAttrs_off o ho, hD]
+      simp only [exportType, ho, Bool.false_and, Bool.false_eq_true, if_false, fedAttrs_off o ho, hD]
       simp [s, kw, List.append_assoc]
     rw [e]
-    simpa [defToks, isSystemScalar, tdAttrs, defCore, List.append_assoc] using Lx_optDesc o 0 a.desc _ _ h2
+    simpa [defToks, isSystemScalar, tdAttrs, defCore, typeApps, List.append_assoc] using Lx_optDesc o 0 a.desc _ _ h2
   | union n a ms =>
     obtain ⟨hn, ha, hne, hms⟩ := hs
     have h1 : Lx ('\n' :: '\n' :: rest) ts := Lx.ign (by decide) (Lx.ign (by decide) h)
@@ -121,44 +160,43 @@ theorem Lx_typeDef (o : Opts) (ho : o.federation = false) (t : TypeDef) (hs : Sk
       | cons m ms => simpa using hu
     have h3 : Lx (' ' :: '=' :: (unionMembers 0 ms ++ '\n' :: '\n' :: rest)) (.punct '=' :: (sepToks '|' ms ++ ts)) :=
       Lx.ign (by decide) (Lx.punct (by decide) hu')
-    have h4 := Lx_head "union" (by decide) n hn _ _ (nameEnd_of_ignored ' ' _ (by decide)) h3
+    have hd := Lx_dirApps a.dirs ha.dirs _ _ (nameEnd_of_ignored ' ' _ (by decide)) h3
+    have h4 := Lx_head "union" (by decide) n hn _ _ (dirApps_nameEnd a.dirs _ (nameEnd_of_ignored ' ' _ (by decide))) hd
     have e : exportType Defects.none o (.union n a ms) ++ rest =
-        optDescription Defects.none o 0 a.desc ++ (kw "union" ++ ' ' :: (n ++ ' ' :: '=' :: (unionMembers 0 ms ++ '\n' :: '\n' :: rest))) := by
-      simp only [exportType, ha.dirs, dirApps_nil, fedAttrs_off o ho]
+        optDescription Defects.none o 0 a.desc ++ (kw "union" ++ ' ' :: (n ++ (dirApps a.dirs ++ ' ' :: '=' :: (unionMembers 0 ms ++ '\n' :: '\n' :: rest)))) := by
+      simp only [exportType, fedAttrs_off o ho]
       simp [s, kw, List.append_assoc]
     rw [e]
-    simpa [defToks, isSystemScalar, tdAttrs, defCore, List.append_assoc] using Lx_optDesc o 0 a.desc _ _ h4
+    simpa [defToks, isSystemScalar, tdAttrs, defCore, typeApps, List.append_assoc] using Lx_optDesc o 0 a.desc _ _ h4
   | «enum» n a vs =>
     obtain ⟨hn, ha, _, hvs⟩ := hs
     have hb := Lx_braces ((sorted o.sortedEnum (·.1) vs).map (exportEnumValue Defects.none o)).flatten rest
       (enumToks (sorted o.sortedEnum (·.1) vs)) ts
       (fun r t hrt => Lx_enumValues o ho _ (fun v hv => hvs v ((sorted_mem _ _ _ _).mp hv)) r t hrt) h
-    have hne : NameEnd (s " {\n" ++ ((sorted o.sortedEnum (·.1) vs).map (exportEnumValue Defects.none o)).flatten ++
-        s "}\n\n" ++ rest) := by
-      simp only [s]; exact nameEnd_of_ignored ' ' _ (by decide)
-    have h2 := Lx_head "enum" (by decide) n hn _ _ hne hb
+    have hne := braces_nameEnd ((sorted o.sortedEnum (·.1) vs).map (exportEnumValue Defects.none o)).flatten rest
+    have hd := Lx_dirApps a.dirs ha.dirs _ _ hne hb
+    have h2 := Lx_head "enum" (by decide) n hn _ _ (dirApps_nameEnd a.dirs _ hne) hd
     have e : exportType Defects.none o (.enum n a vs) ++ rest =
-        optDescription Defects.none o 0 a.desc ++ (kw "enum" ++ ' ' :: (n ++ (s " {\n" ++ ((sorted o.sortedEnum (·.1) vs).map (exportEnumValue Defects.none o)).flatten ++
-          s "}\n\n" ++ rest))) := by
-      simp only [exportType, ha.dirs, dirApps_nil, fedAttrs_off o ho, sortByName_sorted]
+        optDescription Defects.none o 0 a.desc ++ (kw "enum" ++ ' ' :: (n ++ (dirApps a.dirs ++ (s " {\n" ++ ((sorted o.sortedEnum (·.1) vs).map (exportEnumValue Defects.none o)).flatten ++
+          s "}\n\n" ++ rest)))) := by
+      simp only [exportType, fedAttrs_off o ho, sortByName_sorted]
       simp [s, kw, List.append_assoc]
     rw [e]
-    simpa [defToks, isSystemScalar, tdAttrs, defCore, List.append_assoc] using Lx_optDesc o 0 a.desc _ _ h2
+    simpa [defToks, isSystemScalar, tdAttrs, defCore, typeApps, List.append_assoc] using Lx_optDesc o 0 a.desc _ _ h2
   | input n a oneof fs =>
-    obtain ⟨hn, ha, hone, _, hfs⟩ := hs
+    obtain ⟨hn, ha, _, hfs⟩ := hs
     have hb := Lx_braces ((sorted o.sortedFields (·.name) fs).map (exportInputField Defects.none o)).flatten rest
       (ivsToks (sorted o.sortedFields (·.name) fs)) ts
       (fun r t hrt => Lx_inputFields o ho _ (fun v hv => hfs v ((sorted_mem _ _ _ _).mp hv)) r t hrt) h
-    have hne : NameEnd (s " {\n" ++ ((sorted o.sortedFields (·.name) fs).map (exportInputField Defects.none o)).flatten ++
-        s "}\n\n" ++ rest) := by
-      simp only [s]; exact nameEnd_of_ignored ' ' _ (by decide)
-    have h2 := Lx_head "input" (by decide) n hn _ _ hne hb
+    have hne := braces_nameEnd ((sorted o.sortedFields (·.name) fs).map (exportInputField Defects.none o)).flatten rest
+    have hd := Lx_dirApps (typeApps o (.input n a oneof fs)) (typeApps_wf o (.input n a oneof fs) ha) _ _ hne hb
+    have h2 := Lx_head "input" (by decide) n hn _ _ (dirApps_nameEnd _ _ hne) hd
     have e : exportType Defects.none o (.input n a oneof fs) ++ rest =
-        optDescription Defects.none o 0 a.desc ++ (kw "input" ++ ' ' :: (n ++ (s " {\n" ++ ((sorted o.sortedFields (·.name) fs).map (exportInputField Defects.none o)).flatten ++
-          s "}\n\n" ++ rest))) := by
-      simp only [exportType, ha.dirs, dirApps_nil, fedAttrs_off o ho, sortByName_sorted, hone,
-        Bool.false_eq_true, if_false]
-      simp [s, kw, List.append_assoc]
+        optDescription Defects.none o 0 a.desc ++ (kw "input" ++ ' ' :: (n ++ (dirApps (typeApps o (.input n a oneof fs)) ++
+          (s " {\n" ++ ((sorted o.sortedFields (·.name) fs).map (exportInputField Defects.none o)).flatten ++
+          s "}\n\n" ++ rest)))) := by
+      simp only [exportType, fedAttrs_off o ho, sortByName_sorted, typeApps]
+      cases oneof <;> simp [s, kw, kwT, dirApps, dirAppSdl, List.append_assoc]
     rw [e]
     simpa [defToks, isSystemScalar, tdAttrs, defCore, List.append_assoc] using Lx_optDesc o 0 a.desc _ _ h2
 
